@@ -28,8 +28,8 @@ REPO = Path("/repo")
 M = []
 
 
-def m(id, file, old, new, breaks, neutral=()):
-    M.append(dict(id=id, file=file, old=old, new=new, breaks=list(breaks), neutral=list(neutral)))
+def m(id, file, old, new, breaks, neutral=(), more=(), count=1):
+    M.append(dict(id=id, file=file, old=old, new=new, breaks=list(breaks), neutral=list(neutral), more=list(more), count=count))
 
 
 # ---- C01 / C12 / C03 (time)
@@ -246,6 +246,47 @@ m("neutral-eq-via-vars", "chartparse/util.py",
 m("neutral-getitem-copy", "chartparse/chart.py",
   "        return self.instrument_tracks[instrument]\n", "        return dict(self.instrument_tracks[instrument])\n", [], ["C19", "C13"])
 
+# ---- round-10 neutral refactors: things a maintainer may change that no listed property speaks about (private attributes,
+#      wording and quoting of reports, error subclasses, rendering formats, search strategy, container types)
+m("neutral-unparsable-msg-repr", "chartparse/track.py",
+  "_unparsable_line_msg_tmpl: typ.Final[str] = 'unparsable line: \"{}\" for types {}'",
+  "_unparsable_line_msg_tmpl: typ.Final[str] = 'unparsable line: {!r} for types {}'", [], ["C14", "C06", "C07", "C09"])
+m("neutral-unparsable-msg-by-index", "chartparse/track.py",
+  "    for line in lines:\n        for t in types:",
+  "    for _lineno, line in enumerate(lines):\n        for t in types:", [], ["C14", "C06"],
+  more=[("chartparse/track.py",
+         "            logger.warning(_unparsable_line_msg_tmpl.format(line, [t.__qualname__ for t in types]))",
+         "            logger.warning(\"skipping unparsable body line #%d (none of %d kinds claims it)\", _lineno, len(types))")])
+m("neutral-stored-index-zero", "chartparse/instrument.py",
+  "            _proximal_bpm_event_index=proximal_bpm_event_index,", "            _proximal_bpm_event_index=0,", [],
+  ["C11", "C01", "C12", "C05", "C03", "C15", "C19"], count=3,
+  more=[("chartparse/globalevents.py", "            _proximal_bpm_event_index=proximal_bpm_event_index,", "            _proximal_bpm_event_index=0,"),
+        ("chartparse/sync.py", "            lower_numeral=lower_numeral,\n            _proximal_bpm_event_index=proximal_bpm_event_index,", "            lower_numeral=lower_numeral,\n            _proximal_bpm_event_index=0,")])
+m("neutral-valueerror-subclass", "chartparse/sync.py",
+  "logger = logging.getLogger(__name__)", "logger = logging.getLogger(__name__)\n\n\nclass TempoMapError(ValueError):\n    pass", [],
+  ["C15", "C11", "C18", "C13"],
+  more=[("chartparse/sync.py", "            raise ValueError(f\"resolution ({self.resolution}) must be positive\")", "            raise TempoMapError(f\"resolution ({self.resolution}) must be positive\")"),
+        ("chartparse/sync.py", "            raise ValueError(\n                f\"there are no BPMEvents at or after index", "            raise TempoMapError(\n                f\"there are no BPMEvents at or after index"),
+        ("chartparse/sync.py", "            raise ValueError(\n                f\"input tick {tick} precedes tick value", "            raise TempoMapError(\n                f\"input tick {tick} precedes tick value")])
+m("neutral-bisect-lookup", "chartparse/sync.py",
+  "        for index in range(start_iteration_index, index_of_last_event):\n            if self[index + 1].tick > tick:\n                return index\n",
+  "        import bisect\n\n        return bisect.bisect_right([e.tick for e in self.events], tick) - 1\n", [], ["C11", "C01", "C12", "C15", "C16"])
+m("neutral-str-format", "chartparse/event.py", 'to_join = [f"{type(self).__name__}(t@{self.tick:07})"]', 'to_join = [f"{type(self).__name__}(tick={self.tick})"]', [],
+  ["C18", "C19", "C17"])
+m("neutral-unknown-section-wording", "chartparse/chart.py",
+  "_unhandled_data_section_log_msg_tmpl: typ.Final[str] = \"unhandled data section titled '{}'\"",
+  "_unhandled_data_section_log_msg_tmpl: typ.Final[str] = \"no parser for section [{}]: ignored\"", [], ["C06", "C13"])
+m("neutral-end-lookup-unhinted", "chartparse/instrument.py",
+  "        end_timestamp, _ = bpm_events.timestamp_at_tick(\n            end_tick, start_iteration_index=proximal_bpm_event_index\n        )",
+  "        end_timestamp, _ = bpm_events.timestamp_at_tick(end_tick)", [], ["C03", "C01", "C11", "C12", "C05"])
+m("neutral-no-sustain-cache", "chartparse/instrument.py", "@functools.lru_cache\ndef _refined_sustain_tuple", "def _refined_sustain_tuple", [], ["C17", "C03"])
+m("neutral-add-rounds-microseconds", "chartparse/time.py",
+  "other_as_timedelta = timedelta(seconds=other)", "other_as_timedelta = timedelta(microseconds=round(other * 1e6))", [], ["C01", "C12", "C03", "C16"])
+m("neutral-event-lists-as-tuples", "chartparse/instrument.py",
+  "            note_events=note_events,\n            star_power_events=star_power_events,\n            track_events=track_events,",
+  "            note_events=tuple(note_events),\n            star_power_events=tuple(star_power_events),\n            track_events=tuple(track_events),", [],
+  ["C02", "C03", "C05", "C16", "C19", "C17", "C13"])
+
 
 def run(cmd, env=None, cwd=None, timeout=3600):
     return subprocess.run(cmd, env=env, cwd=cwd, capture_output=True, text=True, timeout=timeout)
@@ -278,11 +319,17 @@ def main():
             shutil.copytree(REPO, dst, ignore=shutil.ignore_patterns(".git", "__pycache__", ".benchmarks"))
             f = dst / x["file"]
             src = f.read_text()
-            if src.count(x["old"]) != 1:
+            if src.count(x["old"]) != x.get("count", 1):
                 print(f"{x['id']}: pattern occurs {src.count(x['old'])} times in {x['file']} - SKIPPED")
                 bad += 1
                 continue
             f.write_text(src.replace(x["old"], x["new"]))
+            for f3, o3, n3 in x.get("more", ()):
+                s3 = (dst / f3).read_text()
+                if o3 not in s3:
+                    print(f"{x['id']}: extra pattern not found in {f3} - SKIPPED")
+                    bad += 1
+                (dst / f3).write_text(s3.replace(o3, n3))
             if "extra" in x:
                 f2 = dst / x["extra"][0]
                 f2.write_text(f2.read_text().replace(x["extra"][1], x["extra"][2], 1))
